@@ -3,7 +3,8 @@
 R-CAST    in every instantiation of arithmeticCompare<T1,T2> and of the
           Comparer visit functions, each integral conversion of an operand has
           source range within target range, or is dominated by the sign test
-          that makes it so, or converts to a floating type.
+          that makes it so, or converts to double (to float only from a type
+          whose every value a float holds exactly).
 R-MINEQ   a function that bounds a byte comparison by min(size_a,size_b)
           reaches an 'equal' result only on paths that also compared the two
           sizes.
@@ -89,6 +90,14 @@ def r_cast(ctx, prog):
             targs = ",".join(fn.d.get("targs", []) or fn.d.get("ctargs", []))
             inst = "%s<%s>: %s %s -> %s" % (fn.short, targs, ref["n"], fk, tk)
             n_casts += 1
+            if tk == "f32" and fk != "f32":
+                fr = int_range(fk)
+                if fr is None or fr[0] < -(1 << 24) or fr[1] > (1 << 24):
+                    ctx.ob(rule, inst, False, fn.loc(i),
+                           "operand %s of type %s is converted to float before the comparison: distinct values above 2^24 (or distinct "
+                           "doubles) collapse onto one float and compare equal; mixed comparisons are specified 'as doubles': %s" %
+                           (ref["n"], fk, fn.text(i)))
+                    continue
             if tk in ("f32", "f64"):
                 ctx.ob(rule, inst, True, fn.loc(i), "conversion to floating point (the property's 'otherwise as doubles')", nontrivial=False)
                 continue
